@@ -36,6 +36,10 @@ pub struct RefResult {
     pub zs: Vec<bool>,
     /// for End::BadDistance: (fails already before the symbol is fully decoded, bytes consumed by the failing symbol)
     pub fail: Option<(bool, u32)>,
+    /// code == 0 when decoding stopped
+    pub final_clean: bool,
+    /// adaptive model when decoding stopped (to continue in the next LZMA2 chunk)
+    pub final_probs: Probs,
 }
 
 struct D<'a> {
@@ -228,6 +232,7 @@ pub fn decode(
         zs.push(d.rc.code == 0);
     }
     let _ = pos_slot;
+    let final_clean = d.rc.code == 0;
     Some(RefResult {
         syms,
         costs,
@@ -239,6 +244,8 @@ pub fn decode(
         z0,
         zs,
         fail,
+        final_clean,
+        final_probs: d.probs,
     })
 }
 
